@@ -343,6 +343,18 @@ func run(c *core.Case, id string, gcHeavy bool) {
 	}
 
 	bucketsOf := map[string]map[uint32]bool{}
+	// The rarer layouts are built on purpose in a sixth of the controlled cases each: five flushes
+	// and then the L0->L0 compaction (its planner needs four L0 tables); two rounds of flush +
+	// L0->ingest move and then an ingest drain (two ingest tables).
+	var forced []string
+	if cfg.Controlled {
+		switch c.Idx % 6 {
+		case 1:
+			forced = []string{"rotate-wait", "rotate-wait", "rotate-wait", "rotate-wait", "rotate-wait", "compact:l0-to-l0"}
+		case 3:
+			forced = []string{"rotate-wait", "compact:l0", "rotate-wait", "compact:l0", "compact:ingest-drain"}
+		}
+	}
 	for i := 0; i < nOps; i++ {
 		r := rng.Intn(100)
 		switch {
@@ -424,6 +436,10 @@ func run(c *core.Case, id string, gcHeavy bool) {
 			action := dbx.Actions[rng.Intn(len(dbx.Actions))]
 			if gcHeavy && rng.Intn(2) == 0 {
 				action = []string{"gc", "gc-public", "rotate-wait"}[rng.Intn(3)]
+			}
+			if len(forced) > 0 {
+				// scripted maintenance of this case (client operations keep coming in between)
+				action, forced = forced[0], forced[1:]
 			}
 			if !cfg.Controlled && action != "rotate-wait" && action != "reopen" {
 				// natural mode: background compaction only; value-log GC re-inserts
@@ -536,9 +552,9 @@ func init() {
 		Finish: func(a *core.Agg) {
 			a.FloorNontrivial(40)
 			for _, k := range []string{"action.rotate-wait", "action.compact:l0", "action.compact:ingest-drain", "action.compact:ingest-merge", "action.gc", "action.reopen"} {
-				a.Floor(k, 10)
+				a.Floor(k, 8)
 			}
-			a.Floor("action.compact:l0-to-l0", 3)
+			a.Floor("action.compact:l0-to-l0", 2)
 		},
 	})
 }
